@@ -15,6 +15,7 @@
 package dmap
 
 import (
+	"fmt"
 	"strconv"
 
 	"github.com/olric-data/olric/internal/cluster/partitions"
@@ -57,6 +58,10 @@ func (dm *DMap) Scan(partID, cursor uint64, sc *ScanConfig) ([]string, uint64, e
 		part = dm.s.backup.PartitionByID(partID)
 	} else {
 		part = dm.s.primary.PartitionByID(partID)
+	}
+	if part == nil {
+		// The partition id comes straight from the client.
+		return nil, 0, fmt.Errorf("%w: partition id out of range: %d", protocol.ErrInvalidArgument, partID)
 	}
 	f, err := dm.loadFragment(part)
 	if err == errFragmentNotFound {
